@@ -297,6 +297,98 @@ def case(item):
     return rec
 
 
+# ---------------------------------------------------------------- multi-cert
+MULTI_CREDS = [("rsa", "ecdsa"), ("ecdsa", "rsa"), ("rsa_nonca",
+                                                    "ecdsa_nonca"),
+               ("ecdsa_nonca", "rsa_nonca"), ("rsa", "ecdsa_nonca"),
+               ("ecdsa_nonca", "rsa"), ("rsa", "ed25519"), ("ed25519", "rsa"),
+               ("dsa", "ecdsa"), ("rsa_nonca", "dsa")]
+MULTI_CLIENTS = {
+    "default": {},
+    "sha384-512": {"rsaSigHashes": ["sha384", "sha512"],
+                   "ecdsaSigHashes": ["sha384", "sha512"]},
+    "sha256": {"rsaSigHashes": ["sha256"], "ecdsaSigHashes": ["sha256"]},
+    "ecdsa-first": {"keyExchangeNames": ["ecdhe_ecdsa", "ecdhe_rsa", "rsa",
+                                         "dhe_rsa", "dhe_dsa"]},
+    "rsa-only": {"keyExchangeNames": ["ecdhe_rsa", "rsa", "dhe_rsa"]},
+    "ecdsa-only": {"keyExchangeNames": ["ecdhe_ecdsa"]},
+    "pkcs1-only": {"rsaSchemes": ["pkcs1"]},
+}
+KEYTYPE_AUTH = {"rsa": "RSA", "rsa-pss": "RSA", "ecdsa": "ECDSA",
+                "dsa": "DSS", "Ed25519": "ECDSA", "Ed448": "ECDSA"}
+
+
+def multi_case(item):
+    """A server holding two key pairs of different types (default pair plus
+    one virtual host): whatever it picks, the certificate it sends and the
+    signature it makes must be of the type the negotiated suite's name
+    says."""
+    from tlslite.handshakesettings import VirtualHost, Keypair
+    pi, cname, v, seed = item
+    a, b = MULTI_CREDS[pi]
+    name = "%s+%s/%s/%s" % (a, b, cname, S.VNAME[v])
+    SEAMS_name = "c20/multi-" + name
+    from ..world import SEAMS, Pair, load_cred
+    SEAMS.reset(seed, SEAMS_name)
+    pair = Pair()
+    cst = S.base_settings(minv=(3, 0), maxv=v)
+    for k, val in MULTI_CLIENTS[cname].items():
+        setattr(cst, k, val)
+    sst = S.base_settings(minv=(3, 0), maxv=v)
+    chain_a, key_a = load_cred(a)
+    chain_b, key_b = load_cred(b)
+    vh = VirtualHost()
+    vh.keys = [Keypair(key_b, chain_b.x509List)]
+    vh.hostnames = set([b"other.example"])
+    sst.virtual_hosts = [vh]
+    SEAMS.current = "C"
+    cg = pair.c.handshakeClientCert(settings=cst, async_=True)
+    SEAMS.current = "S"
+    sg = pair.s.handshakeServerAsync(certChain=chain_a, privateKey=key_a,
+                                     settings=sst)
+    SEAMS.current = "main"
+    try:
+        out = pair.handshake(cg, sg, max_steps=60000)
+    except ValueError:
+        return name, ("invalid-settings",), []
+    fails = []
+    if not (out["C"].status == "ok" and out["S"].status == "ok"):
+        return name, ("failed", out["S"].sig()[:3]), fails
+    sid = pair.c.session.cipherSuite
+    info = S.ALL_INFOS[sid]
+    sm = plaintext_handshake(pair.world.s2c.log)
+    kt = None
+    if not info.tls13:
+        certs = [bd for t, bd in sm if t == 11]
+        if certs:
+            kt = cert_key_type(certs[0])
+            if KEYTYPE_AUTH.get(kt) != info.auth:
+                fails.append("suite %s negotiated, server certificate key "
+                             "type is %s" % (info.name, kt))
+        skes = [bd for t, bd in sm if t == 12]
+        if skes and tuple(pair.c.version) >= (3, 3) and \
+                info.auth in ("RSA", "ECDSA", "DSS"):
+            kind, rest = ske_kind(skes[0], info, tuple(pair.c.version))
+            if len(rest) >= 2:
+                alg = rest[1]
+                scheme = (rest[0] << 8) | rest[1]
+                sig_auth = {1: "RSA", 2: "DSS", 3: "ECDSA"}.get(alg)
+                if scheme in (0x0804, 0x0805, 0x0806, 0x0809, 0x080a,
+                              0x080b):
+                    sig_auth = "RSA"
+                if scheme in (0x0807, 0x0808):
+                    sig_auth = "ECDSA"
+                if sig_auth != info.auth:
+                    fails.append("suite %s negotiated, ServerKeyExchange "
+                                 "signed with scheme %04x" % (info.name,
+                                                              scheme))
+    else:
+        kt = pair.c.session.serverCertChain.x509List[0].certAlg \
+            if pair.c.session.serverCertChain else None
+    # the session's record of the server chain is the one on the wire
+    return name, ("ok", info.name, kt), fails
+
+
 # ---------------------------------------------------------------- MITM
 def rewrite_ch_suites(rec, sid):
     """Replace the cipher suite list of a ClientHello record by [sid, SCSV]
@@ -458,7 +550,20 @@ def run(res, tier, seed):
                            "suite": rec["suite"], "version": rec["version"]})
     res.sample({"mitm_case": mitems[0][:3]})
     res.section("mitm", cases=len(mitems), server_selected_substituted=n_sel)
-    res.coverage["distinct_nontrivial"] = done + n_sel
+    mu = [(pi, cn, v, seed) for pi in range(len(MULTI_CREDS))
+          for cn in sorted(MULTI_CLIENTS) for v in ((3, 1), (3, 3), (3, 4))]
+    nmu = 0
+    for (name, sig, fails) in pmap(multi_case, mu):
+        nmu += 1
+        res.count()
+        res.outcome(("multi",) + tuple(sig[:2]))
+        for f in fails:
+            res.violation({"part": "multi-credential", "what": f[:45]},
+                          {"case": name, "fail": f, "sig": sig},
+                          {"multi": name})
+    res.section("multi_credential_server", cases=nmu,
+                credential_pairs=MULTI_CREDS, clients=sorted(MULTI_CLIENTS))
+    res.coverage["distinct_nontrivial"] = done + n_sel + nmu
     res.assumptions += [
         "ECC suites under SSLv3 are left open (either outcome accepted)",
         "the draft-00 ChaCha20 suites have no IANA registration; their "
